@@ -149,3 +149,14 @@ Definition le_report_b (a b : report) : bool :=
   && le_oresult_b (rp_session_setup a) (rp_session_setup b) && le_oresult_b (rp_session_teardown a) (rp_session_teardown b)
   && emb_b suite_name le_suite_b (rp_suites a) (rp_suites b)
   && (if is_some (rp_end a) then report_eqb (set_saving a None) (set_saving b None) else true).
+
+(* sibling names pairwise distinct, at every level (what a report built by a run satisfies: the writer refuses duplicates, Writer.v):
+   under this hypothesis on the LATER report the greedy matching of emb_b is complete (Proofs/PrefixP.v le_report_b_complete) *)
+Fixpoint unique_names_suite (s : suite_result) : Prop :=
+  match s with
+  | SuiteResult _ _ _ _ _ ts us =>
+      NoDup (map test_name ts) /\ NoDup (map suite_name us)
+      /\ (fix all (l : list suite_result) : Prop := match l with [] => True | x :: r => unique_names_suite x /\ all r end) us
+  end.
+Definition unique_names (r : report) : Prop :=
+  NoDup (map suite_name (rp_suites r)) /\ Forall unique_names_suite (rp_suites r).
